@@ -16,8 +16,12 @@
 (* Pow.tla, pins the transcription of the four encodings (lengths, prefix widths, order).    *)
 EXTENDS Pow
 
-VARIABLES z, fill
-vars == <<z, fill>>
+\* dig = Synth(z, fill); acc / accc = the difficulties Accept / AcceptCapped accept for dig.  They are state variables so
+\* that each is evaluated once per state (a definition would be re-evaluated at every use).  lane: 0 in the 8 dummy start
+\* states (one per lane, so that -workers 8 share the work), the lane number in the case states.
+VARIABLES z, fill, dig, acc, accc, lane
+vars == <<z, fill, dig, acc, accc, lane>>
+NLanes == 8
 
 FillBit(j, f, zz) ==
    CASE f = 1 -> 0
@@ -31,23 +35,28 @@ Synth(zz, f) == [i \in 1..32 |->
    Bit(8*i - 8, zz, f) * 128 + Bit(8*i - 7, zz, f) * 64 + Bit(8*i - 6, zz, f) * 32 + Bit(8*i - 5, zz, f) * 16 +
    Bit(8*i - 4, zz, f) * 8 + Bit(8*i - 3, zz, f) * 4 + Bit(8*i - 2, zz, f) * 2 + Bit(8*i - 1, zz, f)]
 
-Init == z \in 0..256 /\ fill \in 1..4
-Next == UNCHANGED vars
+Init == z = 0 /\ fill = 0 /\ dig = <<>> /\ acc = {} /\ accc = {} /\ lane \in 1..NLanes
+Next == /\ fill = 0
+        /\ z' \in {x \in 0..256 : x % NLanes = lane - 1} /\ fill' \in 1..4 /\ lane' = lane
+        /\ dig' = Synth(z', fill')
+        /\ acc' = {d \in Difficulties : Accept(dig', d)}
+        /\ accc' = {d \in Difficulties : AcceptCapped(dig', d)}
 Spec == Init /\ [][Next]_vars
 
-Dig == Synth(z, fill)
+Dig == dig
+Case == fill # 0
 MinCap(d) == IF d > PowCap THEN PowCap ELSE d
 
-L_LZ == IsBytes(Dig) /\ Len(Dig) = 32 /\ LeadingZeroBits(Dig) = z
-L_Accept ==
-   /\ \A d \in Difficulties : (Accept(Dig, d) <=> z >= d) /\ (AcceptCapped(Dig, d) <=> z >= MinCap(d))
-   /\ AcceptedSet(Dig) = {d \in Difficulties : z >= d}
-   /\ AcceptedSetCapped(Dig) = {d \in Difficulties : z >= MinCap(d)}
-L_Monotone ==
-   /\ Accept(Dig, 0) /\ AcceptCapped(Dig, 0)
-   /\ \A d \in 1..255 : (Accept(Dig, d) => Accept(Dig, d - 1)) /\ (AcceptCapped(Dig, d) => AcceptCapped(Dig, d - 1))
-   /\ \A d \in Difficulties : (Accept(Dig, d) => AcceptCapped(Dig, d)) /\ (d <= PowCap => (Accept(Dig, d) <=> AcceptCapped(Dig, d)))
-L_Prefix ==
+L_LZ == Case => IsBytes(Dig) /\ Len(Dig) = 32 /\ LeadingZeroBits(Dig) = z
+L_Accept == Case =>
+   /\ \A d \in Difficulties : (d \in acc <=> z >= d) /\ (d \in accc <=> z >= MinCap(d))
+   /\ AcceptedSet(Dig) = acc
+   /\ AcceptedSetCapped(Dig) = accc
+L_Monotone == Case =>
+   /\ 0 \in acc /\ 0 \in accc
+   /\ \A d \in 1..255 : (d \in acc => (d - 1) \in acc) /\ (d \in accc => (d - 1) \in accc)
+   /\ acc \subseteq accc /\ \A d \in 0..PowCap : d \in acc <=> d \in accc
+L_Prefix == Case =>
    LET k == IF z = 256 THEN 32 ELSE (z \div 8) + 1
    IN /\ LeadingZeroBits(SubSeq(Dig, 1, k)) = z
       /\ \A n \in 0..(k - 1) : LeadingZeroBits(SubSeq(Dig, 1, n)) = 8 * n
